@@ -53,13 +53,14 @@ Domain(ty, f) ==
   CASE f = "opSize"    -> {"small", "max", "over"}
     [] f = "deltaSize" -> IF HasDelta(ty) THEN {"small", "max", "over"} ELSE {"small"}
     [] f = "hashLen"   -> {"small", "max", "over"}
-    [] f = "hashAlg"   -> {<<"allowed", "">>} \cup {<<"notAllowed", h>> : h \in HashFields(ty)} \cup {<<"malformed", h>> : h \in HashFields(ty)}
-    [] f = "alg"       -> IF Signed(ty) THEN {"allowed", "notAllowed", "empty", "missing"} ELSE {"allowed"}
+    \* "emptyList": the protocol version enables NO algorithm / curve / patch action at all (an empty allow-list allows nothing)
+    [] f = "hashAlg"   -> {<<"allowed", "">>, <<"emptyList", "">>} \cup {<<"notAllowed", h>> : h \in HashFields(ty)} \cup {<<"malformed", h>> : h \in HashFields(ty)}
+    [] f = "alg"       -> IF Signed(ty) THEN {"allowed", "notAllowed", "emptyList", "empty", "missing"} ELSE {"allowed"}
     [] f = "hdrExtra"  -> IF Signed(ty) THEN BOOLEAN ELSE {FALSE}
-    [] f = "crv"       -> IF Signed(ty) THEN {"allowed", "notAllowed"} ELSE {"allowed"}
+    [] f = "crv"       -> IF Signed(ty) THEN {"allowed", "notAllowed", "emptyList"} ELSE {"allowed"}
     [] f = "nonce"     -> IF Signed(ty) THEN {"absent", "N", "Nminus", "Nplus", "badB64"} ELSE {"absent"}
     \* a disabled action alone, or before / after / between patches with an enabled action
-    [] f = "patch"     -> IF HasDelta(ty) THEN {"enabled", "disabled", "disabledFirst", "disabledLast", "disabledMiddle", "empty"} ELSE {"enabled"}
+    [] f = "patch"     -> IF HasDelta(ty) THEN {"enabled", "disabled", "disabledFirst", "disabledLast", "disabledMiddle", "emptyList", "empty"} ELSE {"enabled"}
     [] f = "reveal"    -> IF Signed(ty) THEN {"match", "mismatch"} ELSE {"match"}
     [] f = "next"      -> (CASE ty = "U" -> {"fresh", "selfCommit", "selfCommitOtherAlg"}
                              [] ty = "R" -> {"fresh", "selfCommit", "selfCommitOtherAlg", "ucEqRc"}
